@@ -598,3 +598,155 @@ func mustReachPS(f *ssa.Function, from, via *ssa.BasicBlock, target ssa.Instruct
 	visit(from, via, env{}, 0)
 	return ok
 }
+
+// ------------------------------------------------------------------ path-sensitive guards
+
+type phiVal struct {
+	isConst bool
+	val     bool
+	atom    string
+	neg     bool
+}
+
+// pathAssignments enumerates the feasible paths from the entry of fn to `site`
+// and returns, for each, the truth values of the atomic branch conditions
+// decided along it. Atoms are named by `name` (the same expression evaluated
+// twice is one atom); boolean phis of constants and atoms (the lowering of
+// `a || b`, `x := cond`) are followed symbolically. complete=false when the
+// budget was exhausted.
+func pathAssignments(fn *ssa.Function, site ssa.Instruction, name func(ssa.Value) string) (envs []map[string]bool, complete bool) {
+	type state struct {
+		atoms map[string]bool
+		phis  map[*ssa.Phi]phiVal
+	}
+	clone := func(s state) state {
+		n := state{map[string]bool{}, map[*ssa.Phi]phiVal{}}
+		for k, v := range s.atoms {
+			n.atoms[k] = v
+		}
+		for k, v := range s.phis {
+			n.phis[k] = v
+		}
+		return n
+	}
+	sig := func(b *ssa.BasicBlock, s state) string {
+		var ks []string
+		for k, v := range s.atoms {
+			ks = append(ks, fmt.Sprintf("%s=%v", k, v))
+		}
+		for p, v := range s.phis {
+			ks = append(ks, fmt.Sprintf("%s:%v%v%s%v", p.Name(), v.isConst, v.val, v.atom, v.neg))
+		}
+		sort.Strings(ks)
+		return fmt.Sprint(b.Index) + "|" + strings.Join(ks, ",")
+	}
+	seen := map[string]bool{}
+	steps := 0
+	complete = true
+	var resolve func(v ssa.Value, s state) phiVal
+	resolve = func(v ssa.Value, s state) phiVal {
+		neg := false
+		for {
+			if u, ok := v.(*ssa.UnOp); ok && u.Op == token.NOT {
+				v, neg = u.X, !neg
+				continue
+			}
+			break
+		}
+		switch x := v.(type) {
+		case *ssa.Const:
+			if x.Value != nil && x.Value.Kind() == constant.Bool {
+				return phiVal{isConst: true, val: constant.BoolVal(x.Value) != neg}
+			}
+		case *ssa.Phi:
+			if pv, ok := s.phis[x]; ok {
+				if pv.isConst {
+					pv.val = pv.val != neg
+				} else {
+					pv.neg = pv.neg != neg
+				}
+				return pv
+			}
+		}
+		return phiVal{atom: name(v), neg: neg}
+	}
+	var visit func(b, pred *ssa.BasicBlock, s state)
+	visit = func(b, pred *ssa.BasicBlock, s state) {
+		steps++
+		if steps > 20000 {
+			complete = false
+			return
+		}
+		if pred != nil {
+			idx := -1
+			for i, p := range b.Preds {
+				if p == pred {
+					idx = i
+				}
+			}
+			// phis are evaluated simultaneously on entry
+			old := s
+			s = clone(s)
+			for _, ins := range b.Instrs {
+				phi, isPhi := ins.(*ssa.Phi)
+				if !isPhi {
+					break
+				}
+				delete(s.phis, phi)
+				if idx >= 0 && idx < len(phi.Edges) {
+					if bt, ok := phi.Type().Underlying().(*types.Basic); ok && bt.Kind() == types.Bool {
+						s.phis[phi] = resolve(phi.Edges[idx], old)
+					}
+				}
+			}
+		}
+		k := sig(b, s)
+		if seen[k] {
+			return
+		}
+		seen[k] = true
+		for _, ins := range b.Instrs {
+			if ins == site {
+				envs = append(envs, s.atoms)
+				return
+			}
+		}
+		ifi, isIf := b.Instrs[len(b.Instrs)-1].(*ssa.If)
+		if !isIf || len(b.Succs) != 2 {
+			for _, sc := range b.Succs {
+				visit(sc, b, s)
+			}
+			return
+		}
+		pv := resolve(ifi.Cond, s)
+		if pv.isConst {
+			if pv.val {
+				visit(b.Succs[0], b, s)
+			} else {
+				visit(b.Succs[1], b, s)
+			}
+			return
+		}
+		if pv.atom == "" {
+			visit(b.Succs[0], b, s)
+			visit(b.Succs[1], b, s)
+			return
+		}
+		if av, ok := s.atoms[pv.atom]; ok {
+			if av != pv.neg {
+				visit(b.Succs[0], b, s)
+			} else {
+				visit(b.Succs[1], b, s)
+			}
+			return
+		}
+		s1 := clone(s)
+		s1.atoms[pv.atom] = !pv.neg // condition true
+		visit(b.Succs[0], b, s1)
+		s2 := clone(s)
+		s2.atoms[pv.atom] = pv.neg // condition false
+		visit(b.Succs[1], b, s2)
+	}
+	visit(fn.Blocks[0], nil, state{map[string]bool{}, map[*ssa.Phi]phiVal{}})
+	return envs, complete
+}
